@@ -2,7 +2,7 @@
    PARTIAL: the theorems bound the logical bytes / objects held; allocator slack, vector capacity and
    zlib's state are measured by the correspondence run (live-heap high-water mark), not modelled. *)
 From Coq Require Import String List Bool ZArith Lia.
-From VB Require Import Base BaseFacts UFModel UFFacts WPipe RPipe.
+From VB Require Import Base BaseFacts UFModel UFFacts WPipe RPipe PipeSkel FileSkel SkelEq.
 Import ListNotations.
 Local Open Scope Z_scope.
 
@@ -33,3 +33,9 @@ Theorem C12_drop_leaves_less_than_a_container : forall s,
   match u_data (uf_drop s) with [] => True | c :: _ => u_tellg s < c_end c \/ u_tellp s < c_end c \/ u_fsz s < c_end c end.
 Proof. intros s. destruct (drop_frame s) as (_ & _ & _ & _ & _ & gone & _ & _ & H). exact H. Qed.
 Print Assumptions C12_drop_leaves_less_than_a_container.
+
+(* the parser calls dropOldData on every path that advances the get position — also when it skips an object of unknown
+   type (the reader program of the model drops after every step; this is the same fact about the source) *)
+Theorem C12_parser_drops_on_every_path : w1_every_path_drops skel_uncompressedFile2ReadWriteQueue = true.
+Proof. exact parser_drops_on_every_path. Qed.
+Print Assumptions C12_parser_drops_on_every_path.
